@@ -76,6 +76,8 @@ class Conv:
             return [17, self.n(e[1])]
         if k == 'accessor':
             return [18, self.n(e[2]), self.e(e[1])]
+        if k == 'field':
+            return [20, self.e(e[1])]
         if k == 'keyprop':
             return [19, self.n(e[1])]
         if k == 'numberof':
